@@ -328,6 +328,7 @@ static void case_c09(rng_t *r, ctx_t *c) {
 
 /* ----------------------------------- C11 -------------------------------------------- */
 static void case_c11(rng_t *r, ctx_t *c) {
+    int hugeanno = rng_chance(r, 1, 10), nhuge = 0;
     prog_t p; prog_init(&p);
     prog_add_source(&p, 1, "src-one");
     int nsig = (int) rng_range(r, 1, 2);
@@ -408,6 +409,8 @@ static void case_c11(rng_t *r, ctx_t *c) {
             static const uint32_t sz[] = {0, 1, 2, 7, 8, 9, 31, 100, 1000};
             o->dsize = RNG_PICK(r, sz);
             if (rng_chance(r, 1, 400)) o->dsize = 70000;
+            /* a payload that makes the writer's 1 MiB chunk buffer grow while the annotation is being assembled (28 bytes precede the payload) */
+            if (hugeanno && k == n / 2) { static const uint32_t hs[] = {1048548, 1048549, (1 << 20) + 12345, 3 << 20, (2 << 20) - 27}; o->dsize = RNG_PICK(r, hs); nhuge++; }
             if (o->stype != JLS_STORAGE_TYPE_BINARY && o->dsize == 0) o->dsize = 1;
             o->dseed = rng_u64(r);
         }
@@ -425,6 +428,7 @@ static void case_c11(rng_t *r, ctx_t *c) {
     sample_prog("C11", &p);
     size_t tot = 0; for (int i = 0; i < 256; ++i) tot += m.sig[i].nanno;
     v_feature("C11", tot > 0, "%s", feat);
+    v_feature("C11", nhuge > 0, "huge-annotation-payloads");
     decode_and_compare(path, &m, "C05", "sync", 0);
     verify_opts_t vo = {.prop_len = "C01", .prop_data = NULL, .check_anno = 1, .rng = r, .file_kind = "sync"};
     verify_file(path, &m, &vo);
@@ -718,6 +722,10 @@ static void case_c13(rng_t *r, ctx_t *c) {
         sig_vsr[sig_n - 1] = rng_chance(r, 1, 5);
         if (sig_vsr[sig_n - 1]) { d.signal_type = JLS_SIGNAL_TYPE_VSR; d.sample_rate = 0; }   /* definitions of both signal types round-trip */
         int ncls = (int) rng_below(r, 5), ucls = (int) rng_below(r, 5);
+        /* the writer keeps its own copies of signal names and units in 1 MiB string blocks: long names, so that a name is the string
+         * that no longer fits the current block, with units to follow it */
+        if (big && rng_chance(r, 2, 3)) { ncls = 5 + (int) rng_below(r, 2); if (ncls > strmax) strmax = ncls; }
+        if (big && rng_chance(r, 1, 5)) { ucls = 5 + (int) rng_below(r, 2); if (ucls > strmax) strmax = ucls; }
         char *nm = make_string(r, ncls ? ncls : 2, NULL), *un = make_string(r, ucls ? ucls : 1, NULL);
         prog_add_signal(&p, &d, nm, un, PAT_RANDOM, rng_u64(r));
         free(nm); free(un);
